@@ -8,3 +8,5 @@ open LhasaV.Props.C10
 #print axioms guard_resolves_below_cwd
 #print axioms deferred_link_contained
 #print axioms deferred_link_refused
+#print axioms safe_links_resolve_inside
+#print axioms run_contained
